@@ -210,6 +210,8 @@ class _Inliner(object):
         self.left = {}         # key -> count of call sites not expanded
         for st in tree.body:
             if isinstance(st, ast.FunctionDef) and st.name not in known:
+                if any(isinstance(x, ast.Attribute) and x.attr.startswith("__") and not x.attr.endswith("__") for x in ast.walk(st)):
+                    continue        # `obj.__x` outside a class is not mangled: expanding it into a method would change its meaning (W13 judges it)
                 self._add(("", st.name), st)
             elif isinstance(st, ast.ClassDef) and any(k.startswith(st.name + ".") for k in known):
                 hooks = _stdlib_method_names(tree, st)
